@@ -205,6 +205,12 @@ func newWorld(kind string, r *rand.Rand) *world {
 	p := reflect.New(t)
 	p.Elem().Set(old(11))
 	w.dyn["p"] = p
+	// the same map / slice values once more, injected by pointer
+	for _, n := range []string{"ms", "mi", "sl"} {
+		pp := reflect.New(w.dyn[n].Type())
+		pp.Elem().Set(w.dyn[n])
+		w.dyn["p"+n] = pp
+	}
 	return w
 }
 
@@ -264,6 +270,20 @@ func (w *world) target(path, kind string) (text, key string, get func() reflect.
 		return "mi[3]", "mi[3]", func() reflect.Value { return w.dyn["mi"].MapIndex(reflect.ValueOf(3)) }, ""
 	case "mapvar":
 		return "ms[kv]", "ms[k]", func() reflect.Value { return w.dyn["ms"].MapIndex(reflect.ValueOf("k")) }, "kv = \"k\"\n  "
+	case "mapintvar":
+		return "mi[iv3]", "mi[3]", func() reflect.Value { return w.dyn["mi"].MapIndex(reflect.ValueOf(3)) }, "iv3 = 3\n  "
+	case "pmapstr":
+		return "pms[\"k\"]", "ms[k]", func() reflect.Value { return w.dyn["ms"].MapIndex(reflect.ValueOf("k")) }, ""
+	case "pmapint":
+		return "pmi[3]", "mi[3]", func() reflect.Value { return w.dyn["mi"].MapIndex(reflect.ValueOf(3)) }, ""
+	case "pmapvar":
+		return "pms[kv]", "ms[k]", func() reflect.Value { return w.dyn["ms"].MapIndex(reflect.ValueOf("k")) }, "kv = \"k\"\n  "
+	case "pmapintvar":
+		return "pmi[iv3]", "mi[3]", func() reflect.Value { return w.dyn["mi"].MapIndex(reflect.ValueOf(3)) }, "iv3 = 3\n  "
+	case "pslice":
+		return "psl[1]", "sl[1]", func() reflect.Value { return w.dyn["sl"].Index(1) }, ""
+	case "pslicevar":
+		return "psl[iv]", "sl[2]", func() reflect.Value { return w.dyn["sl"].Index(2) }, "iv = 2\n  "
 	case "slice":
 		return "sl[1]", "sl[1]", func() reflect.Value { return w.dyn["sl"].Index(1) }, ""
 	case "slicevar":
@@ -285,6 +305,9 @@ func (w *world) inject(dc *context.DataContext) {
 	dc.Add("sl", w.dyn["sl"].Interface())
 	dc.Add("ar", w.dyn["ar"].Interface())
 	dc.Add("p", w.dyn["p"].Interface())
+	dc.Add("pms", w.dyn["pms"].Interface())
+	dc.Add("pmi", w.dyn["pmi"].Interface())
+	dc.Add("psl", w.dyn["psl"].Interface())
 }
 
 type Meth struct{ w *world }
@@ -433,7 +456,7 @@ func runCell(c *Cell) []result {
 			var want reflect.Value
 			if c.What == "readmissing" {
 				tt = strings.Replace(strings.Replace(tt, "\"k\"", "\"absent\"", 1), "mi[3]", "mi[99]", 1)
-				pre = strings.Replace(pre, "\"k\"", "\"absent\"", 1)
+				pre = strings.Replace(strings.Replace(pre, "\"k\"", "\"absent\"", 1), "iv3 = 3", "iv3 = 99", 1)
 				want = reflect.Zero(kindType[c.Kind])
 				if c.Path == "fieldmap" {
 					want = reflect.Zero(kindType["int64"])
@@ -561,7 +584,7 @@ func runCell(c *Cell) []result {
 			mutate := func() {
 				switch how {
 				case "value":
-					if c.Path == "mapstr" {
+					if c.Path == "mapstr" || c.Path == "pmapstr" {
 						w.dyn["ms"].SetMapIndex(reflect.ValueOf("k"), newv)
 					} else {
 						get().Set(newv)
@@ -618,13 +641,20 @@ func runCell(c *Cell) []result {
 			var text string
 			if c.Path == "ptr" {
 				text = fmt.Sprintf("rule \"r\" begin\n  p = %d\n  loc = 5\n  return loc\nend\n", v)
+			} else if c.Path == "late" {
+				// `late` is a rule local first; then a function called by the rule injects an object under that name
+				text = fmt.Sprintf("rule \"r\" begin\n  late = %d\n  first = late\n  injectLate()\n  return late\nend\n", v+1000)
 			} else {
 				text = fmt.Sprintf("rule \"r\" begin\n  val = %d\n  return val\nend\n", v)
 			}
 			orig := mk(c.Kind, 3, "", false)
 			res, err, pv := exec(text, func(dc *context.DataContext) {
 				setup(dc)
-				dc.Add("val", orig.Interface())
+				if c.Path == "late" {
+					dc.Add("injectLate", func() { dc.Add("late", orig.Interface()) })
+				} else {
+					dc.Add("val", orig.Interface())
+				}
 			})
 			after := w.snap()
 			if pv != nil {
@@ -639,6 +669,12 @@ func runCell(c *Cell) []result {
 				}
 				if df := diff(before, after, "p"); len(df) > 0 {
 					fail("collateral-change", strings.Join(df, "; "), text)
+					continue
+				}
+			} else if c.Path == "late" {
+				g, ok := num(reflect.ValueOf(res["r"]))
+				if err != nil || !ok || g != 3 {
+					fail("local-shadows-injected", fmt.Sprintf("returned %#v (%v), the object injected under that name is 3", res["r"], err), text)
 					continue
 				}
 			} else {
